@@ -122,8 +122,8 @@ func c06Guard(f func()) string {
 			return ""
 		case <-tick.C:
 			runtime.ReadMemStats(&ms)
-			if ms.HeapAlloc > 3<<30 {
-				return fmt.Sprintf("allocated more than 3 GiB (%d MiB after %.1f s) without returning", ms.HeapAlloc>>20, time.Since(start).Seconds())
+			if ms.HeapAlloc > 2<<30 {
+				return fmt.Sprintf("allocated more than 2 GiB (%d MiB after %.1f s) without returning", ms.HeapAlloc>>20, time.Since(start).Seconds())
 			}
 			if time.Since(start) > 120*time.Second {
 				return "did not return within 120 s"
@@ -674,32 +674,6 @@ func init() {
 		c.Or.Extra["writer_acceptance_summary"] = fmt.Sprintf("%d fixtures: %d reproduced byte-identically, %d identical in every field the loader reads, %d not reproduced, %d files not matched",
 			len(fx), len(acc.Identical), len(acc.Logical), len(acc.Failed), len(acc.Skipped))
 
-		ex, exErr := c06ConfirmCoqExamples(fx)
-		c.Or.Extra["coq_examples_confirmed"] = ex
-		// a failure is raised at the end, after the oracle had its chance to find the failing input
-
-		// the oracle must notice a stream that encodes another index: write the
-		// values of two keys swapped, keep the expectation unswapped
-		selftest := map[string]bool{}
-		for _, ln := range []string{"a051-u32children", "a059-bm16children-padded", "b0510-allpref"} {
-			l := c06LayoutByName(ln)
-			keys := []string{"a", "ab", "abc\xff", "b"}
-			good := [][]byte{le(4, 10), le(4, 11), le(4, 12), le(4, 13)}
-			bad := [][]byte{good[0], good[2], good[1], good[3]}
-			buf, err := c06Write(l, encode.I32{}, keys, bad, []int32{10, 12, 11, 13})
-			if err == nil {
-				if st, err := c06Load(buf, encode.I32{}); err == nil {
-					selftest[ln] = c06Oracle(st, specByName("I32"), keys, good, false, nil, nil, 10) != nil
-				} else {
-					selftest[ln] = true // a failing load is noticed by c06Eval
-				}
-			}
-			if !selftest[ln] {
-				panic("C06: oracle self-test failed: swapped values not detected in layout " + ln)
-			}
-		}
-		c.Or.Extra["oracle_selftest_detects_swapped_values"] = selftest
-
 		// 2. generated key sets x all layouts
 		nsets := c.N(60, 900)
 		type gen struct {
@@ -817,7 +791,15 @@ func init() {
 			cs := &c06Case{TC: tc, L: f.Layout}
 			c.Or.Case("fixture "+f.File, len(keys) >= 2)
 			c.Or.Count("fixture:" + f.Layout.Name)
-			st, err := c06Load(f.Buf, spec32.Enc)
+			var st *trie.SlimTrie
+			var err error
+			if h := c06Guard(func() { st, err = c06Load(f.Buf, spec32.Enc) }); h != "" {
+				fd := &finding{key: "C06:fixture-no-termination", what: "C06: loading the archived fixture " + f.File + " " + h, got: h, want: "a loaded trie"}
+				report(cs, fd, f.File)
+				c.Close()
+				fmt.Printf("C06: evaluations=%d distinct=%d violations=%d (stopped at a non-terminating load)\n", c.Or.Evaluations, c.Or.Distinct, len(c.Or.Violations))
+				os.Exit(0)
+			}
 			if err != nil {
 				report(cs, &finding{key: "C06:fixture-load", what: "C06: archived fixture " + f.File + " does not load: " + err.Error(), got: err.Error(), want: "a loaded trie"}, f.File)
 				continue
@@ -850,6 +832,37 @@ func init() {
 			"cases_emitted":                 stats.corrEmitted,
 			"three_array_cases_skipped_big": stats.corrSkippedBig,
 		}
+
+		// (after the oracle: if the loader is broken the oracle reports it with a replay first)
+		var ex map[string]bool
+		var exErr error
+		if h := c06Guard(func() { ex, exErr = c06ConfirmCoqExamples(fx) }); h != "" {
+			exErr = fmt.Errorf("loading a fixture %s", h)
+		}
+		c.Or.Extra["coq_examples_confirmed"] = ex
+		// a failure is raised at the end, after the oracle had its chance to find the failing input
+
+		// the oracle must notice a stream that encodes another index: write the
+		// values of two keys swapped, keep the expectation unswapped
+		selftest := map[string]bool{}
+		for _, ln := range []string{"a051-u32children", "a059-bm16children-padded", "b0510-allpref"} {
+			l := c06LayoutByName(ln)
+			keys := []string{"a", "ab", "abc\xff", "b"}
+			good := [][]byte{le(4, 10), le(4, 11), le(4, 12), le(4, 13)}
+			bad := [][]byte{good[0], good[2], good[1], good[3]}
+			buf, err := c06Write(l, encode.I32{}, keys, bad, []int32{10, 12, 11, 13})
+			if err == nil {
+				if st, err := c06Load(buf, encode.I32{}); err == nil {
+					selftest[ln] = c06Oracle(st, specByName("I32"), keys, good, false, nil, nil, 10) != nil
+				} else {
+					selftest[ln] = true // a failing load is noticed by c06Eval
+				}
+			}
+			if !selftest[ln] {
+				panic("C06: oracle self-test failed: swapped values not detected in layout " + ln)
+			}
+		}
+		c.Or.Extra["oracle_selftest_detects_swapped_values"] = selftest
 
 		// the basis of the check itself: without a failing input found above, a
 		// broken basis must not pass silently
